@@ -298,7 +298,9 @@ func c25CompareTokens(t c25Tuple, w c25Want, p c25Parsed) []string {
 // different keys (ordered) over the key and value sets.
 func c25ExtLists(maxLen int) [][]c25Ext {
 	keys := []string{"ufrag", "generation", "network-cost", "x"}
-	vals := []string{"", "a", c25RemoteUfrag}
+	// the last two are NOT the remote ufrag: the same letters in the other case (ufrags are case-sensitive)
+	// and the remote ufrag with one more character
+	vals := []string{"", "a", c25RemoteUfrag, "C25u", c25RemoteUfrag + "x"}
 	out := [][]c25Ext{nil}
 	var rec func(cur []c25Ext, used int)
 	rec = func(cur []c25Ext, used int) {
@@ -684,7 +686,7 @@ func TestVerifC25(t *testing.T) { //nolint:cyclop
 	// quick: lists of <= 1 extension on every core tuple and <= 2 on the core
 	// tuples with the middle port/priority/component/foundation; thorough: <= 3 everywhere
 	maxA, maxAll, maxB := c.Pick(2, 3), c.Pick(1, 3), c.Pick(2, 3)
-	c.Rule("tuples = type {host,srflx,prflx,relay} x protocol {udp,tcp} x address {IPv4, IPv6, mDNS name (host)} x port {1,9,65535} x priority {computed,1,2^32-1} x component {1,2} x foundation {computed,'1',32 ice-chars} x TCP type {none; host: active,passive,so} x related {none; non-host: addr/port} x every ordered extension list of <= L entries with pairwise different keys over {ufrag,generation,network-cost,x} x values {'', 'a', the remote ufrag}; each tuple along two construction paths (ice constructors + AddExtension; ice.UnmarshalCandidate of a composed candidate line). Part A: ToJSON accepted by AddICECandidate and parsed back (ice.UnmarshalCandidate + own tokenizer) against the tuple. Part B: unique port per case, the ICE agent's remote candidates inspected: present with the tuple's fields unless a ufrag extension names no ufrag of the remote description. distinct = (part, path, type, protocol, address form, TCP type, related, extension-list shape) that held")
+	c.Rule("tuples = type {host,srflx,prflx,relay} x protocol {udp,tcp} x address {IPv4, IPv6, mDNS name (host)} x port {1,9,65535} x priority {computed,1,2^32-1} x component {1,2} x foundation {computed,'1',32 ice-chars} x TCP type {none; host: active,passive,so} x related {none; non-host: addr/port} x every ordered extension list of <= L entries with pairwise different keys over {ufrag,generation,network-cost,x} x values {'', 'a', the remote ufrag, the remote ufrag in the other case, the remote ufrag plus one character}; each tuple along two construction paths (ice constructors + AddExtension; ice.UnmarshalCandidate of a composed candidate line). Part A: ToJSON accepted by AddICECandidate and parsed back (ice.UnmarshalCandidate + own tokenizer) against the tuple. Part B: unique port per case, the ICE agent's remote candidates inspected: present with the tuple's fields unless a ufrag extension names no ufrag of the remote description. distinct = (part, path, type, protocol, address form, TCP type, related, extension-list shape) that held")
 	c.Set("max_extension_list_len_part_A", maxA)
 	c.Set("max_extension_list_len_part_A_on_every_core_tuple", maxAll)
 	c.Set("max_extension_list_len_part_B", maxB)
